@@ -33,6 +33,7 @@ from efmc import boot, engine, report, world as W, snap as S
 PROP = "C03"
 RTOL, ATOL = 1e-9, 1e-12
 FMT = "%Y-%m-%d %H:%M"
+GROUP_TIMEOUT = 1500
 
 # ------------------------------------------------------------------------------------------------ the space
 ALPHABET = [0, 1, 3]
@@ -302,13 +303,13 @@ def check_model(c):
             par[p] = get(p, "nb_usage_journeys_in_parallel")
             want = total(ref["starts"][p]) * d_h
             npred += 2
-            if abs(total(par[p]) - want) > tol(want, total(par[p])):
+            total_broken = abs(total(par[p]) - want) > tol(want, total(par[p]))
+            if total_broken:
                 bad("total", "UsagePattern.nb_usage_journeys_in_parallel", f"journey={jk}", pattern=p,
                     observed_total=total(par[p]), expected_total=want, law="sum starts x journey duration in hours",
                     observed=render_series(par[p]))
-            wv = None if viol and viol[-1]["sig"]["clause"] == "total" and viol[-1]["detail"].get(
-                "pattern") == p and viol[-1]["sig"]["attr"].endswith("in_parallel") else window_violation(
-                par[p], utc, d_h, math.ceil(ref["dur_h"][p]))
+            # the window bounds imply the total: one clause per defect
+            wv = None if total_broken else window_violation(par[p], utc, d_h, math.ceil(ref["dur_h"][p]))
             if wv:
                 bad("window", "UsagePattern.nb_usage_journeys_in_parallel", f"journey={jk}", pattern=p,
                     starts=render_series(utc), observed=render_series(par[p]), **_h(wv))
@@ -373,8 +374,8 @@ def check_model(c):
                         bad("window", "JobBase." + attr, f"request={rk}", job=j, pattern=p,
                             occurrences=render_series(occ), observed=render_series(x),
                             window_hours=n, per_occurrence=amount, **_h(wv))
-            for attr, law_tot in (("hourly_occurrences", None), ("hourly_avg_occurrences", None),
-                                  ("hourly_data_transferred", None), ("hourly_data_stored", None)):
+            for attr in ("hourly_occurrences", "hourly_avg_occurrences", "hourly_data_transferred",
+                         "hourly_data_stored"):
                 a_per, a_acr = attr + "_per_usage_pattern", attr + "_across_usage_patterns"
                 x = get(j, a_acr)
                 if attr == "hourly_avg_occurrences":
@@ -533,21 +534,28 @@ def main(tier):
     run = report.Run(PROP, tier)
     cfgs, slices, n_enum = enumerate_space(tier)
     group = 30
-    tasks = [{"models": cfgs[i:i + group]} for i in range(0, len(cfgs), group)]
+    # generous alarms: a build takes ~0.2 s; the alarm only exists so that a hung worker cannot block the run
+    tasks = [{"models": cfgs[i:i + group], "_timeout": GROUP_TIMEOUT} for i in range(0, len(cfgs), group)]
     engine.start(run_task)
     t0 = time.time()
     results = engine.pmap(tasks, chunksize=1)
+    engine.check_results(results, run)
+    # a group that hit the alarm (overloaded machine) is re-run model by model
+    redo = [{"models": [c], "_timeout": GROUP_TIMEOUT} for t, r in zip(tasks, results) if r.get("_timeout")
+            for c in t["models"]]
+    n_group_timeouts = sum(1 for r in results if r.get("_timeout"))
+    if redo:
+        tasks = [t for t, r in zip(tasks, results) if not r.get("_timeout")] + redo
+        results = [r for r in results if not r.get("_timeout")] + engine.pmap(redo, chunksize=1)
+        engine.check_results(results, run)
     engine.stop()
-    timeouts = engine.check_results(results, run)
-    outcomes, digests, npred, built = {}, set(), 0, 0
+    outcomes, digests, npred, built, unexecuted = {}, set(), 0, 0, []
     for t, r in zip(tasks, results):
         if r.get("_timeout"):
-            run.violation({"clause": "timeout", "attr": "?", "trigger": "build"},
-                          {"task": t, "detail": "a group of model constructions did not terminate", "size": 999})
+            unexecuted += t["models"]
             continue
         for k, v in r["outcomes"].items():
-            kk = k if not k.startswith("rejected") else k
-            outcomes[kk] = outcomes.get(kk, 0) + v
+            outcomes[k] = outcomes.get(k, 0) + v
         digests.update(r["digests"])
         npred += r["npred"]
         built += r["built"]
@@ -562,7 +570,8 @@ def main(tier):
         samples.append({"model": c, "outcome": oc, "predictions_compared": n, "value_digest": dg})
     dim = dimension_coverage(cfgs)
     cov = {"states": len(cfgs), "transitions": built, "traces_validated_against_impl": npred,
-           "samples": samples, "exhaustive": not timeouts,
+           "samples": samples, "exhaustive": not unexecuted, "groups_rerun_after_alarm": n_group_timeouts,
+           "models_not_executed": unexecuted[:20],
            "distinct_outcomes": len(digests) + len([k for k in outcomes if k != "ok"]),
            "distinct_value_digests": len(digests), "outcomes": outcomes,
            "configurations_enumerated": n_enum, "distinct_models": len(cfgs), "slices": slices,
@@ -578,13 +587,17 @@ def main(tier):
                           "every per-pattern entry, across-pattern sum, journeys in parallel, device energy and "
                           "server need is compared with the reference model on dict[hour -> float]",
            "wall_models_s": round(time.time() - t0, 1)}
-    return run.finish(cov, assumptions=[
+    rc = run.finish(cov, assumptions=[
         "EMPTY and hours absent from a series count as zero (statement of C03)",
         "the spread of a multi-hour request's data / occupancy inside [start, start+ceil(duration)) is not demanded: "
         "only the total and the cumulative-flow bounds of that window",
         "a model whose construction raises is counted as rejected, not as a violation (C04 decides)",
         "tolerance rel 1e-9 / abs 1e-12 in base units; storage keeps data 5 years so that no expiry is involved",
         "hash seam installed (set order = creation order); ids from a counter"])
+    if unexecuted and rc == 0:
+        print(f"HARNESS-ERROR {len(unexecuted)} models did not terminate within {GROUP_TIMEOUT} s (machine overloaded?)")
+        return 2
+    return rc
 
 
 if __name__ == "__main__":
